@@ -10,8 +10,7 @@ correspondence), C07's decoder (`Op.parse`, `Op.iterAll`) on the input side and 
 
 Assumptions about the abstract environment are exactly `ConvOp.EnvSpec` (the writer has an output
 offset `u o` for the entry `unitRef o` returns; `convert_address` yields constants; `.debug_addr`
-look-ups yield `addrx`) and, for totality, `ConvOp.EnvNoFuel` (the environment answers with gimli
-errors only).
+look-ups yield `addrx`).
 -/
 namespace Gimli.Props.C12
 open Gimli Gimli.ConvOp
@@ -98,12 +97,12 @@ theorem convert_expr_decode_partial (env : Env) (e : Endian) (enc : Encoding) (b
     ∃ ins offsOut,
       Op.iterAll e enc bs.length (bs.length + 1) bs = (ins, none) ∧
       AllPairs (fun p w => convertOp env enc (inputOffsets ins bs.length) p.2
-        (fun sub => convertExpr env e enc bs.length sub) p.1 = .ok w) ins ws ∧
+        (subAt env e enc maxEntryValueDepth) p.1 = .ok w) ins ws ∧
       WOp.exprOffsets enc (some offs) ws pos = .ok offsOut ∧
       Op.iterAll e enc out.length fuel out =
         (WOp.expectedDecode e enc (some offs) hasRefs offsOut pos 0 ws, none) := by
   unfold convert at hconv
-  simp only [convertExpr] at hconv
+  rw [convertNested_unfold] at hconv
   cases hI : Op.iterAll e enc bs.length (bs.length + 1) bs with
   | mk ins er =>
     rw [hI] at hconv
@@ -120,14 +119,29 @@ theorem convert_expr_decode_partial (env : Env) (e : Endian) (enc : Encoding) (b
       simp only [Nat.sub_self] at hd
       exact ⟨ins, offsOut, rfl, hf, ho, hd⟩
 
-/-- **(d) Totality.** `Expression::from` as modelled returns converted operations or a
-`ConvertError` for every byte string: the recursion into `DW_OP_entry_value` is bounded by the
-length of the expression (`len + 1` levels of fuel always suffice), given an environment that
-itself answers with gimli errors only. (That the *real* recursion consumes native stack in
-proportion to the nesting depth is finding C12-E1.) -/
-theorem convert_expr_total (env : Env) (henv : EnvNoFuel env) (e : Endian) (enc : Encoding) (bs : Bytes) :
-    convert env e enc bs ≠ .error .fuel :=
-  convertExpr_no_fuel env henv e enc (bs.length + 1) bs (Nat.lt_succ_self _)
+/-- **(d) Totality, with the native recursion bounded.** `Expression::from` as modelled is a total
+function — the recursion into `DW_OP_entry_value` is structural on the number of nesting levels
+still allowed (64 at the top), so no input needs more than 65 nested calls — and for every byte
+string it returns either a `ConvertError`, or converted operations that nest `entry_value` at most
+64 deep (so the writer's own recursion in `size`/`write` is bounded as well). Since the `fix:` for
+finding C12-E1. -/
+theorem convert_expr_total (env : Env) (e : Endian) (enc : Encoding) (bs : Bytes) :
+    (∃ c, convert env e enc bs = .error c) ∨
+      (∃ ws, convert env e enc bs = .ok ws ∧ exprDepth ws ≤ maxEntryValueDepth) := by
+  cases h : convert env e enc bs with
+  | error c => exact Or.inl ⟨c, rfl⟩
+  | ok ws => exact Or.inr ⟨ws, rfl, convertNested_depth env e enc maxEntryValueDepth bs ws h⟩
+
+/-- at every level: what is converted with `left` more levels allowed nests at most `left` deep -/
+theorem converted_nesting_bounded (env : Env) (e : Endian) (enc : Encoding) (left : Nat) (bs : Bytes)
+    (ws : List WOp.Operation) (h : convertNested env e enc left bs = .ok ws) : exprDepth ws ≤ left :=
+  convertNested_depth env e enc left bs ws h
+
+/-- **the 65th nested `entry_value` is refused**: with no level left, an `entry_value` operation is
+`UnsupportedOperation` — before its sub-expression is looked at (whatever it contains) -/
+theorem entry_value_depth_refused (env : Env) (enc : Encoding) (offsets : List Nat) (endOff : Nat) (x : Bytes) :
+    convertOp env enc offsets endOff refuseNested (.entryValue x) = .error .unsupportedOperation := by
+  simp [convertOp, refuseNested, bind, Except.bind]
 
 /-- the bytes of a decoded `entry_value` are strictly shorter than the expression they are in -/
 theorem entry_value_shorter (e : Endian) (enc : Encoding) (bs : Bytes) (p : Op.Operation × Nat) (x : Bytes)
@@ -150,7 +164,10 @@ example : convert demoEnv .little ⟨8, .dwarf32, 4⟩ [0x08, 0x05, 0x28, 0xfd, 
 example : convert demoEnv .little ⟨8, .dwarf32, 4⟩ [0x08, 0x05, 0x2f, 0xfc, 0xff] = .error .invalidBranchTarget := by rfl
 -- a dangling base type
 example : convert demoEnv .little ⟨8, .dwarf32, 4⟩ [0xf7, 0x0f] = .error .invalidUnitRef := by rfl
-example : EnvNoFuel demoEnv := by
-  refine ⟨fun o => ?_, fun o => ?_, fun f i h => by simp [demoEnv] at h⟩ <;> simp only [demoEnv] <;> split <;> simp
+-- 64 levels of nesting convert, the 65th is refused
+private def nest : Nat → Bytes → Bytes
+  | 0, x => x
+  | n + 1, x => nest n (0xf3 :: UInt8.ofNat x.length :: x)
+example : (convert demoEnv .little ⟨8, .dwarf32, 4⟩ (nest 3 [0x50])).toOption.map exprDepth = some 3 := by rfl
 
 end Gimli.Props.C12
